@@ -53,6 +53,14 @@ type withLists struct {
 type inl struct {
 	V uint8 `tlv8:"7"`
 }
+type inlb struct {
+	W []byte `tlv8:"8"`
+}
+type lists2 struct {
+	L  []small `tlv8:"4"`
+	Ib []inlb  `tlv8:"-"`
+	T  uint16  `tlv8:"9"`
+}
 type onlyFloat struct {
 	H float32 `tlv8:"2"`
 }
@@ -309,7 +317,11 @@ func fillValue(v reflect.Value, rng *rand.Rand, depth int) {
 			fillValue(f, rng, depth+1)
 		case reflect.Slice:
 			if f.Type().Elem().Kind() == reflect.Uint8 {
-				n := []int{0, 1, 16, 254, 255, 256, 511, 1000}[rng.Intn(8)]
+				// 250 / 503 make a small{X, Y} list element encode to exactly 255 / 510 bytes
+				n := []int{0, 1, 16, 250, 253, 254, 255, 256, 503, 510, 511, 1000}[rng.Intn(12)]
+				if n == 0 && depth > 0 {
+					n = 1 // a list element that encodes to nothing cannot be represented between two delimiters
+				}
 				b := make([]byte, n)
 				rng.Read(b)
 				for k := range b { // keep zero bytes rare: an all-zero element is indistinguishable from absent
@@ -351,7 +363,7 @@ func normalise(v reflect.Value) {
 
 var tlvShapes = map[string]func() interface{}{
 	"leafAll": func() interface{} { return &leafAll{} }, "small": func() interface{} { return &small{} }, "nested": func() interface{} { return &nested{} },
-	"withLists": func() interface{} { return &withLists{} }, "onlyFloat": func() interface{} { return &onlyFloat{} }, "onlyI64": func() interface{} { return &onlyI64{} },
+	"withLists": func() interface{} { return &withLists{} }, "lists2": func() interface{} { return &lists2{} }, "onlyFloat": func() interface{} { return &onlyFloat{} }, "onlyI64": func() interface{} { return &onlyI64{} },
 	"rtp.SetupEndpoints": func() interface{} { return &rtp.SetupEndpoints{} }, "rtp.SetupEndpointsResponse": func() interface{} { return &rtp.SetupEndpointsResponse{} },
 	"rtp.StreamConfiguration": func() interface{} { return &rtp.StreamConfiguration{} }, "rtp.VideoStreamConfiguration": func() interface{} { return &rtp.VideoStreamConfiguration{} },
 	"rtp.AudioStreamConfiguration": func() interface{} { return &rtp.AudioStreamConfiguration{} }, "rtp.StreamingStatus": func() interface{} { return &rtp.StreamingStatus{} },
